@@ -8,6 +8,7 @@ func init() {
 			ruleOwnerFields(r)
 			ruleOwnerOverwrite(r)
 			ruleReplayClosesPerFile(r)
+			ruleNoAcquireAfterClose(r)
 			ruleOwnerLocals(r, []string{"simpledb", "sstables", "wal", "memstore", "recordio", "recordio/proto"})
 			ruleEvict(r)
 			ruleJoin(r)
